@@ -67,6 +67,7 @@ list_table_add(list_table_t *list_tbl, int tag, int ref, const char *path)
     i                     = list_tbl->nobjs++;
     list_tbl->objs[i].tag = tag;
     list_tbl->objs[i].ref = ref;
+    list_tbl->objs[i].out_ref = -1;
 
     /* copy the path over */
     path_len               = strlen(path);
